@@ -18,10 +18,9 @@
     are list operations.  The driver overwrites its key buffers after every call to check
     the copy.  Locks are not modelled (note: [Insert] mutates under [RLock]).
 
-    [DeletePrefix] empties the node that the prefix leads to but does NOT unlink it from its
-    parent: a dead node (no leaf, no edges) stays behind unless the parent is a non-root,
-    non-leaf node with a single edge, in which case [mergeChild] turns the parent into the
-    dead node.  The model mirrors this.
+    [DeletePrefix] empties the node that the prefix leads to, unlinks it from its parent
+    ([delEdge]) and, if the parent is then a non-root, non-leaf node with a single edge,
+    [mergeChild] merges the remaining child into the parent.
 
     No proofs in this file. *)
 From Verif Require Import Base.Prelude Model.C36_rhh.
@@ -152,9 +151,9 @@ Definition r_get (t : rtree) (s : bytes) : option Z := get_node (r_root t) s.
 Definition is_none {A} (o : option A) : bool := match o with None => true | Some _ => false end.
 
 (** [deletePrefix(parent, n, prefix)].  [del_node is_root n prefix] runs the "look for an edge"
-    part at [n] for a non-empty prefix; [del_edges] returns the updated edges, the number of
-    deleted entries, whether the child was emptied at this level, and that child's prefix
-    (for [mergeChild]). *)
+    part at [n] for a non-empty prefix; [del_edges] returns the updated edges (the emptied
+    child's edge removed), the number of deleted entries, and whether the child was emptied at
+    this level (then [n] may have to merge its single remaining child). *)
 Fixpoint del_node (is_root : bool) (n : rnode) (prefix : bytes) {struct n} : rnode * Z :=
   match n with
   | RNode leaf p es =>
@@ -163,15 +162,18 @@ Fixpoint del_node (is_root : bool) (n : rnode) (prefix : bytes) {struct n} : rno
       | c :: _ =>
           match del_edges es c prefix with
           | None => (n, 0%Z)
-          | Some (es', cnt, cleared, cp) =>
-              if cleared && negb is_root && Nat.eqb (ecount es) 1 && is_none leaf
-              then (RNode None (p ++ cp) ENil, cnt)
+          | Some (es', cnt, cleared) =>
+              if cleared && negb is_root && is_none leaf then
+                match es' with
+                | ECons _ (RNode cl cp ces) ENil => (RNode cl (p ++ cp) ces, cnt)   (* mergeChild *)
+                | _ => (RNode leaf p es', cnt)
+                end
               else (RNode leaf p es', cnt)
           end
       end
   end
 with del_edges (es : redges) (c : N) (prefix : bytes) {struct es}
-  : option (redges * Z * bool * bytes) :=
+  : option (redges * Z * bool) :=
   match es with
   | ENil => None
   | ECons l ch rest =>
@@ -183,16 +185,15 @@ with del_edges (es : redges) (c : N) (prefix : bytes) {struct es}
               let prefix' := if Nat.ltb (length prefix) (length cp) then []
                              else skipn (length cp) prefix in
               match prefix' with
-              | [] => Some (ECons l (RNode None cp ENil) rest,
-                            Z.of_nat (length (walk ch)), true, cp)
+              | [] => Some (rest, Z.of_nat (length (walk ch)), true)      (* delEdge *)
               | _ :: _ =>
                   let '(ch', cnt) := del_node false ch prefix' in
-                  Some (ECons l ch' rest, cnt, false, [])
+                  Some (ECons l ch' rest, cnt, false)
               end
         end
       else
         match del_edges rest c prefix with
-        | Some (rest', cnt, cl, cp) => Some (ECons l ch rest', cnt, cl, cp)
+        | Some (rest', cnt, cl) => Some (ECons l ch rest', cnt, cl)
         | None => None
         end
   end.
